@@ -150,6 +150,8 @@ def map_sqf(op):
         return "k = [j, 0]", False
     if k == "mutj":
         return "j pushBack 9", False
+    if k == "mutkeys":
+        return "{ if (_x isEqualType []) then { _x pushBack 9; if (count _x > 0 && {(_x select 0) isEqualType []}) then { (_x select 0) pushBack 9 } } } forEach (keys %s)" % op["m"], False
     raise vlib.MachineryError("map op " + k)
 
 
@@ -179,13 +181,13 @@ def random_map_histories(rng, n, length):
     for _ in range(n):
         h = []
         for _ in range(length):
-            k = rng.choice(["set", "set", "set", "get", "del", "in", "count", "fromArray", "copy", "newk", "mutk", "mutk", "newkj", "newkj", "mutj", "mutj", "create"])
+            k = rng.choice(["set", "set", "set", "get", "del", "in", "count", "fromArray", "copy", "newk", "mutk", "mutk", "newkj", "newkj", "mutj", "mutj", "create", "mutkeys", "mutkeys"])
             m = rng.choice(MAPS)
             if k in ("get", "del", "in"):
                 op = {"op": k, "m": m, "key": rng.choice(keys)}
             elif k == "set":
                 op = {"op": k, "m": m, "key": rng.choice(keys), "val": rng.choice(vals)}
-            elif k in ("count", "create"):
+            elif k in ("count", "create", "mutkeys"):
                 op = {"op": k, "m": m}
             elif k == "fromArray":
                 op = {"op": k, "m": m, "pairs": [[rng.choice(keys), rng.choice(vals)] for _ in range(rng.randint(0, 4))]}
@@ -214,6 +216,10 @@ def directed_map_histories():
                             {"op": "mutj"}, {"op": look, "m": "m", "key": KV}, {"op": "count", "m": "m"}])
                 out.append([{"op": "newkj"}, {"op": "set", "m": "m", "key": lit(stored), "val": N(5)}, {"op": "set", "m": "n", "key": KV, "val": N(6)},
                             {"op": "mutj"}, {"op": look, "m": "m", "key": KV}, {"op": look, "m": "n", "key": KV}, {"op": look, "m": "n", "key": lit(before)}])
+        # the arrays handed out by `keys` are changed in place: the stored keys are not
+        for stored in (A(N(0)), A(A(N(3)), N(0))):
+            out.append([{"op": "set", "m": "m", "key": lit(stored), "val": N(5)}, {"op": "mutkeys", "m": "m"}, {"op": look, "m": "m", "key": lit(stored)}, {"op": "count", "m": "m"},
+                        {"op": "set", "m": "m", "key": lit(stored), "val": N(6)}, {"op": "count", "m": "m"}])
         # outer array k = [0] changed by pushBack
         for stored in (A(N(0)), A(N(0), N(9))):
             out.append([{"op": "newk", "elems": [N(0)]}, {"op": "set", "m": "m", "key": lit(stored), "val": N(5)}, {"op": look, "m": "m", "key": KV},
